@@ -256,12 +256,9 @@ fn opt_same(a: &Option<Coor4D>, b: &Option<Coor4D>) -> bool {
     }
 }
 
-//@h {"id":"C08.K.grids_at.first_hit","props":["C08"],"tier":"quick","kind":"bounded","bound":"lists of 0..=2 grids with symbolic answers (any Option<Coor4D>) at margin 0 and at margin 0.5","timeout":900,"text":"grids_at returns the first hit in list order at margin 0, else the first hit at margin 0.5, else the zero correction if the null grid is given, else None"}
-#[kani::proof]
-#[kani::unwind(6)]
-fn c08_grids_at_first_hit() {
+fn grids_at_case(maxn: usize) {
     let n: usize = kani::any();
-    kani::assume(n <= 2);
+    kani::assume(n <= maxn);
     let (s, l) = ([any_opt(), any_opt(), any_opt()], [any_opt(), any_opt(), any_opt()]);
     let mut grids: Vec<Arc<dyn Grid>> = Vec::new();
     let mut i = 0;
@@ -287,6 +284,20 @@ fn c08_grids_at_first_hit() {
         e = Some(Coor4D([0.0; 4]));
     }
     assert!(opt_same(&r, &e), "C08.K.grids_at.first_hit: first grid containing the point, then first within the margin, then null grid, else failure");
+}
+
+//@h {"id":"C08.K.grids_at.first_hit","props":["C08"],"tier":"quick","kind":"bounded","bound":"lists of 0..=2 grids with symbolic answers (any Option<Coor4D>) at margin 0 and at margin 0.5","timeout":900,"text":"grids_at returns the first hit in list order at margin 0, else the first hit at margin 0.5, else the zero correction if the null grid is given, else None"}
+#[kani::proof]
+#[kani::unwind(6)]
+fn c08_grids_at_first_hit() {
+    grids_at_case(2);
+}
+
+//@h {"id":"C08.K.grids_at.first_hit.3","props":["C08"],"tier":"thorough","kind":"bounded","bound":"lists of 0..=3 grids with symbolic answers at margin 0 and at margin 0.5","timeout":2400,"text":"same obligation for lists of up to three grids"}
+#[kani::proof]
+#[kani::unwind(6)]
+fn c08_grids_at_first_hit_3() {
+    grids_at_case(3);
 }
 
 //@h {"id":"C08.K.gravsoft.units","props":["C08","C15"],"tier":"quick","kind":"bounded","bound":"2x2 grids with 1, 2 and 3 bands on a 1-degree geometry; node values: power-of-two probes","timeout":900,"text":"Gravsoft normalisation: header degrees -> radians; 2 bands: (lat,lon) arcsec -> (lon,lat) radians; 3 bands: (lat,lon,h) mm/yr -> (lon,lat,h) m/yr; 1 band and projected (|border| > 720) grids untouched"}
